@@ -15,6 +15,7 @@ package main
 
 import (
 	"fmt"
+	"strings"
 	"time"
 
 	"verif/engine/chainsim"
@@ -56,6 +57,15 @@ func runCase(c chainsim.Case, rep chainsim.Reporter, scratch string) {
 		}
 	}
 	for _, p := range h.Panics {
+		// The reference replica executes the block another replica (builder / twin) proposed. When it
+		// rejects that block's state root in the very block in which it ran an election, the two
+		// replicas computed different results from identical inputs in an election block.
+		if p.Height == em.ElectedAt() && strings.Contains(p.Error(), "invalid state root in block metadata") {
+			rep.Violation("c14/nondeterministic/election-block-state-differs-between-replicas",
+				"the reference replica ran an election in this block and computed another state root than the replica that proposed the block: "+p.Error(),
+				map[string]any{"params": h.Sc.P, "height": p.Height})
+			continue
+		}
 		rep.Inconclusive("history ended by a panic (see C10): " + p.Error())
 	}
 	excl := 0
